@@ -110,6 +110,8 @@ const (
 	c03Cancel
 	c03CloseToS
 	c03CloseToC
+	c03CancelReadyC // the client-side user cancels the pairing while the client waits in ready-listen
+	c03CancelReadyS // the server-side user cancels while the (trusted) server waits in ready-listen
 	c03Kinds
 )
 
@@ -124,6 +126,9 @@ func c03Run(maxSteps int, timely bool) {
 	sv.info.allowWait = trust != 2 || zzvrt.Bool("server.allowwait")
 	user := zzvrt.Choice("user", 3) // 0 approves, 1 cancels, 2 never answers
 	userDone := false
+	// a cancel (hub.CancelPairingWithSKI -> AbortPendingHandshake) on a side that is waiting in ready-listen
+	lateCancel := zzvrt.Choice("cancel.readylisten", 3) // 0 never, 1 client side, 2 server side
+	lateCancelDone := false
 	serverDeliveries := 0
 	earlyApprove := false // ghost: the user approved before the client's hello reached the server
 	timeouts := 0
@@ -151,6 +156,12 @@ func c03Run(maxSteps int, timely bool) {
 			} else {
 				en = append(en, c03Cancel)
 			}
+		}
+		if !lateCancelDone && lateCancel == 1 && cl.state() == 8 && !cl.closed {
+			en = append(en, c03CancelReadyC)
+		}
+		if !lateCancelDone && lateCancel == 2 && sv.state() == 8 && !sv.closed {
+			en = append(en, c03CancelReadyS)
 		}
 		busy := len(en) > 0
 		if (!timely || !busy) && timeouts < maxTimeouts {
@@ -188,6 +199,15 @@ func c03Run(maxSteps int, timely bool) {
 			userDone = true
 			sv.c.AbortPendingHandshake()
 			sv.afterEvent()
+		case c03CancelReadyC:
+			lateCancelDone = true
+			cl.c.AbortPendingHandshake()
+			cl.afterEvent()
+		case c03CancelReadyS:
+			lateCancelDone = true
+			sv.info.paired = false // CancelPairingWithSKI removes the trust, then aborts
+			sv.c.AbortPendingHandshake()
+			sv.afterEvent()
 		case c03CloseToC:
 			cl.learnPeerClosed()
 		case c03CloseToS:
@@ -213,8 +233,13 @@ func c03Run(maxSteps int, timely bool) {
 			zzvrt.Assert(p.log.count(evClosed) == 1, "C03.ended-side-did-not-report-its-end-once")
 		}
 	}
-	trusted := trust != 2 || (user == 0 && userDone)
-	if timely && (trust != 2 || (user == 0 && sv.info.allowWait)) {
+	trusted := (trust != 2 || (user == 0 && userDone)) && !lateCancelDone
+	if lateCancelDone {
+		// a pairing cancelled while a side was waiting for the other's decision never completes, on either side
+		zzvrt.Assert(!sComplete && !cComplete, "C03.completed-after-cancel")
+		zzvrt.Assert(sv.log.count(evSetup) == 0 && cl.log.count(evSetup) == 0, "C03.setup-after-cancel")
+	}
+	if timely && lateCancel == 0 && (trust != 2 || (user == 0 && sv.info.allowWait)) {
 		// messages arrive in time and trust is (or gets) granted: nobody may need a timeout, both sides complete
 		zzvrt.Assert(timeouts == 0, "C03.trusted-pair-stalled-until-a-timeout")
 		if earlyApprove {
@@ -228,7 +253,7 @@ func c03Run(maxSteps int, timely bool) {
 		zzvrt.Assert(sv.c.remoteShipID == "id-of-client" && cl.c.remoteShipID == "id-of-server", "C03.ship-id-not-learned")
 		zzvrt.Assert(trusted, "C03.completed-without-trust")
 	}
-	if !trusted {
+	if !trusted && !lateCancelDone {
 		zzvrt.Assert(!sComplete && !cComplete, "C03.completed-without-trust")
 		zzvrt.Assert(sv.log.count(evSetup) == 0, "C03.setup-without-trust")
 	}
